@@ -7,6 +7,7 @@ import (
 	"fmt"
 	"os"
 	"reflect"
+	"sort"
 	"sync"
 	"time"
 )
@@ -176,11 +177,11 @@ func replayOne(cfg replayCfg, bi int, beh []step) behResult {
 			got = ev.St
 		case "evict":
 			// the eviction tick with everything expired (what a driver can force)
+			h.pool.VerifSetLifetime(time.Nanosecond)
 			h.mu.Lock()
-			h.evictHold = true
+			h.evictHold = true // the hook sets the lifetime back at the end of the next tick
 			n0 := h.nEvents["evict"]
 			h.mu.Unlock()
-			h.pool.VerifSetLifetime(time.Nanosecond)
 			if !h.waitFor(10*time.Second, func() bool { return h.nEvents["evict"] > n0 }) {
 				return stuck("no eviction tick within 10s")
 			}
@@ -192,6 +193,13 @@ func replayOne(cfg replayCfg, bi int, beh []step) behResult {
 				return stuck("no reorg run within 10s")
 			}
 			if ev = lastEvent("reorg"); ev == nil || ev.Reset {
+				res.status = "deviated"
+				return res
+			}
+			// the canonical schedule: the loop had received every promote request before the tick
+			want := append([]int{}, st.Dirty...)
+			sort.Ints(want)
+			if len(want) != len(ev.Addrs) || (len(want) > 0 && !reflect.DeepEqual(want, ev.Addrs)) {
 				res.status = "deviated"
 				return res
 			}
@@ -250,34 +258,37 @@ func replayOne(cfg replayCfg, bi int, beh []step) behResult {
 		if st.Nalt > 1 {
 			nd = true
 		}
-		// schedule check: between the planned steps no other run may have changed anything
-		if st.Op == "tick" || st.Op == "head" {
+		// schedule check: no run other than the planned ones may have promoted or changed anything
+		{
 			h.mu.Lock()
 			var before *absState
 			planned := ev
+			if st.Op != "tick" && st.Op != "head" {
+				planned = nil
+			}
+			dev := false
 			for i := groupStart; i < len(h.events); i++ {
 				e := h.events[i]
 				if e.Op == "reorg" && e != planned {
-					if len(e.Addrs) > 0 || e.Reset || (before != nil && !reflect.DeepEqual(before, e.St)) {
-						h.mu.Unlock()
-						res.status = "deviated"
-						return res
+					if len(e.Addrs) > 0 || e.Reset || (before != nil && !reflect.DeepEqual(stripObs(before), stripObs(e.St))) {
+						dev = true
 					}
 				}
 				if e.Op != "reorgbegin" {
 					before = e.St
 				}
 			}
-			groupStart = len(h.events)
+			if planned != nil {
+				groupStart = len(h.events)
+			}
 			h.mu.Unlock()
+			if dev {
+				res.status = "deviated"
+				return res
+			}
 		}
 		if f, e, g := diffState(st.St, got); f != "" {
 			return mis(f, e, g)
-		}
-		if v := h.violations(); len(v) > 0 {
-			res.status = "mismatch"
-			res.viols = v
-			return res
 		}
 	}
 	res.viols = h.violations()
